@@ -2,8 +2,8 @@
    Abstract field (FieldLaws: commutative ring with partial inverse) and abstract module
    (GroupLaws); vector length 2^k for EVERY k (the code fixes k = 8). *)
 From Coq Require Import ZArith List Arith.
-From GoIpa Require Import Model.Bytes Model.Alg Model.Transcript Model.Bary Model.Banderwagon Model.IPA
-  Proofs.AlgLaws Proofs.IPAProofs.
+From GoIpa Require Import Model.Zq Model.FpSqrt Model.Concrete Model.Bytes Model.Alg Model.Transcript Model.Bary Model.Banderwagon Model.IPA
+  Proofs.AlgLaws Proofs.IPAProofs Proofs.BaryProofs Proofs.BaryPoly.
 Import ListNotations.
 
 Section C04.
@@ -50,7 +50,29 @@ Section C04.
   Theorem C04_folding_scalars : forall xis,
     folding_scalars fo (length xis) xis (2 ^ length xis) = fs_spec fo xis.
   Proof. exact (folding_scalars_spec fo FL). Qed.
+
+  (* the opened value is p(z) for p ANY polynomial of degree < n through the committed
+     evaluations, at every field point: inside the domain the evaluation itself, outside
+     the barycentric interpolation (premises: node differences invertible; z - node invertible
+     for out-of-domain z; the integer embedding round-trips on z) *)
+  Theorem C04_opened_value_is_polynomial_evaluation : forall (cfg : config (F := F) (G := G)) q z,
+    let n := c_n cfg in
+    c_w cfg = new_weights fo n -> (length q <= n)%nat -> nodes_ok fo n ->
+    (0 <= f2z fo z)%Z -> fofz fo (f2z fo z) = z ->
+    ((Z.of_nat n - 1 < f2z fo z)%Z -> off_domain fo n z) ->
+    inner fo (map (fun i => peval fo q (dom fo i)) (seq 0 n)) (compute_b fo cfg z) = peval fo q z.
+  Proof. exact (opened_value_is_poly_eval fo FL). Qed.
 End C04.
+Print Assumptions C04_opened_value_is_polynomial_evaluation.
+
+(* the configuration of the code: Fr, 256 nodes; the node premises are discharged *)
+Theorem C04_concrete_opened_value : forall srs (q : list Zq.Fr) (z : Zq.Fr),
+  (length q <= 256)%nat ->
+  ((255 < Zq.zval z)%Z -> off_domain FpSqrt.fro 256 z) ->
+  inner FpSqrt.fro (map (fun i => peval FpSqrt.fro q (dom FpSqrt.fro i)) (seq 0 256)) (Concrete.c_compute_b srs z)
+  = peval FpSqrt.fro q z.
+Proof. exact concrete_opened_value. Qed.
+Print Assumptions C04_concrete_opened_value.
 Print Assumptions C04_ipa_complete.
 Print Assumptions C04_b_vector_switch.
 Print Assumptions C04_in_domain_value.
